@@ -16,6 +16,8 @@ from pstat import variants  # noqa
 from pstat.__main__ import PROPS, run_variant  # noqa
 
 SKIP_FILES = ("citation_reminder", "parallel_processing", "__init__", "configs/")
+DTYPE_SWAP = {"uint64": "uint32", "uint32": "uint16", "uint16": "uint8", "uint8": "uint16", "int32": "int16", "int64": "int32", "float64": "float32"}
+FUNC_SWAP = {"min": "max", "max": "min", "sum": "mean", "mean": "median", "average": "median", "std": "var", "logical_or": "logical_and", "logical_and": "logical_or", "any": "all", "all": "any", "unique": "sort", "zeros": "ones", "ones": "zeros", "floor": "ceil", "ceil": "floor", "sqrt": "abs"}
 CMP = {ast.Lt: "<=", ast.LtE: "<", ast.Gt: ">=", ast.GtE: ">", ast.Eq: "!=", ast.NotEq: "==", ast.Is: "is not", ast.IsNot: "is", ast.In: "not in", ast.NotIn: "in"}
 
 
@@ -92,6 +94,41 @@ def mutants():
                     emit(n, o, "drop .copy()")
             elif isinstance(n, (ast.Continue, ast.Break)):
                 emit(n, "pass", "drop " + type(n).__name__.lower())
+            # ---- second operator set (numpy / dtype / statements) ---------------------------
+            if isinstance(n, ast.Attribute) and isinstance(n.value, ast.Name) and n.value.id == "np" and n.attr in DTYPE_SWAP:
+                emit(n, "np." + DTYPE_SWAP[n.attr], "2:dtype " + n.attr)
+            if isinstance(n, ast.Attribute) and isinstance(n.value, ast.Name) and n.value.id == "np" and n.attr in FUNC_SWAP and isinstance(getattr(n, "ctx", None), ast.Load):
+                emit(n, "np." + FUNC_SWAP[n.attr], "2:func np." + n.attr)
+            if isinstance(n, ast.Call) and isinstance(n.func, ast.Name) and n.func.id in ("min", "max") and n.args:
+                s0 = seg(n)
+                if s0 and s0.startswith(n.func.id + "("):
+                    emit(n, ("max" if n.func.id == "min" else "min") + s0[3:], "2:min/max")
+            if isinstance(n, ast.Call) and isinstance(n.func, ast.Attribute) and n.func.attr == "astype" and len(n.args) == 1:
+                o = seg(n.func.value)
+                if o:
+                    emit(n, o, "2:drop .astype()")
+            if isinstance(n, ast.BinOp) and isinstance(n.op, (ast.FloorDiv, ast.Mod)):
+                l, r = seg(n.left), seg(n.right)
+                if l and r:
+                    emit(n, f"{l} {'%' if isinstance(n.op, ast.FloorDiv) else '//'} {r}", "2://%")
+            if isinstance(n, ast.BinOp) and isinstance(n.op, (ast.Mult, ast.Div)):
+                l, r = seg(n.left), seg(n.right)
+                if l and r:
+                    emit(n, f"{l} {'/' if isinstance(n.op, ast.Mult) else '*'} {r}", "2:*/")
+            if isinstance(n, ast.keyword) and n.arg == "axis" and isinstance(n.value, ast.Constant) and isinstance(n.value.value, int):
+                emit(n.value, str(-1 if n.value.value == 0 else 0), "2:axis")
+            if isinstance(n, ast.Expr) and isinstance(n.value, ast.Call) and id(n.value) not in skip_nodes and not (isinstance(n.value.func, ast.Name) and n.value.func.id in ("print",)):
+                emit(n, "pass", "2:drop call stmt")
+            if isinstance(n, (ast.Assign, ast.AugAssign)) and any(isinstance(t, (ast.Subscript, ast.Attribute)) for t in (n.targets if isinstance(n, ast.Assign) else [n.target])):
+                emit(n, "pass", "2:drop store stmt")
+            if isinstance(n, ast.AugAssign) and isinstance(n.op, (ast.Add, ast.Sub)):
+                t, v = seg(n.target), seg(n.value)
+                if t and v:
+                    emit(n, f"{t} {'-=' if isinstance(n.op, ast.Add) else '+='} {v}", "2:+=/-=")
+            if isinstance(n, ast.Return) and n.value is not None and isinstance(n.value, ast.Tuple) and len(n.value.elts) == 2:
+                a_, b_ = seg(n.value.elts[0]), seg(n.value.elts[1])
+                if a_ and b_:
+                    emit(n, f"return {b_}, {a_}", "2:swap returned pair")
     return out
 
 
@@ -131,11 +168,12 @@ def run_tests(i):
 if __name__ == "__main__":
     ap = argparse.ArgumentParser()
     ap.add_argument("--files", default="")
+    ap.add_argument("--ops", default="", help="only mutants whose operator label starts with this prefix (the second set is labelled '2:')")
     ap.add_argument("--tests", action="store_true")
     ap.add_argument("--out", default="/tmp/mutation_probe.json")
     ap.add_argument("--resume", default="", help="reuse stage 1 of an earlier output file")
     a = ap.parse_args()
-    idx = [i for i, m in enumerate(MUTS) if a.files in m["path"]]
+    idx = [i for i, m in enumerate(MUTS) if a.files in m["path"] and m["what"].startswith(a.ops)]
     print(f"{len(idx)} mutants", flush=True)
     by = {i: {"viol": {}, "und": []} for i in idx}
     if a.resume:
